@@ -236,7 +236,12 @@ func faults() []fault {
 			if p.n > 0 && i >= p.start && i < p.start+p.n {
 				return "", false // versions are compressed: the outer copy decides; skip this layout
 			}
-			switch rng.IntN(4) {
+			switch rng.IntN(5) {
+			case 4:
+				// code points that are no TLS version at all: DTLS 1.2 / 1.0, a TLS 1.3 draft, all ones
+				v := []uint16{0xfefd, 0xfeff, 0x7f1c, 0xffff}[rng.IntN(4)]
+				e := tlswire.SupportedVersions(v, 0x0303)
+				return fmt.Sprintf("%04x+1.2", v), replaceExt(p.inner, tlswire.ExtSupportedVersions, &e)
 			case 0:
 				e := tlswire.SupportedVersions(0x0303)
 				return "only-1.2", replaceExt(p.inner, tlswire.ExtSupportedVersions, &e)
